@@ -704,13 +704,17 @@ class Escape:
             return False
         syms = {}
 
-        def lin(x) -> Lin:
+        def lin(x, depth=0) -> Lin:
             if isinstance(x, ast.Constant) and isinstance(x.value, int):
                 return Lin.c(x.value)
+            if isinstance(x, ast.Name) and depth < 3:
+                d = self._adjacent_def(f, call, x.id)
+                if d is not None:
+                    return lin(d, depth + 1)
             if isinstance(x, ast.BinOp) and isinstance(x.op, ast.Add):
-                return lin(x.left) + lin(x.right)
+                return lin(x.left, depth) + lin(x.right, depth)
             if isinstance(x, ast.BinOp) and isinstance(x.op, ast.Sub):
-                return lin(x.left) - lin(x.right)
+                return lin(x.left, depth) - lin(x.right, depth)
             k = norm(x)
             syms[k] = x
             return Lin.sym(k)
@@ -729,6 +733,45 @@ class Escape:
             if c > 0 and d.const >= 0 and ((s, True) in atoms or (f.expand(syms[s], 3), True) in atoms):
                 return True
         return False
+
+    def _adjacent_def(self, f: Fn, call, name: str):
+        """the definition `name = E` that reaches the statement of `call` in straight line: the nearest earlier
+        statement of the same block that stores to `name` is a plain assignment of integer arithmetic over
+        names/constants, E does not mention `name`, and no statement in between (nested ones included) stores to
+        a name E reads - so E, evaluated at the call, is the value of `name` there.  A reaching definition for
+        locals that are assigned more than once (which Fn.expand declines)."""
+        from .pyfacts import enclosing_stmt
+
+        try:
+            st = enclosing_stmt(call)
+            block = f.block_of(st)
+        except (AttributeError, AnalysisError):
+            return None
+        if any(isinstance(n, (ast.Nonlocal, ast.Global)) for n in ast.walk(f.node)):
+            return None
+        idx = next(i for i, x in enumerate(block) if x is st)
+
+        def stores(node) -> set:
+            return {n.id for n in ast.walk(node) if isinstance(n, ast.Name) and isinstance(n.ctx, (ast.Store, ast.Del))}
+
+        between = stores(st)
+        for prev in reversed(block[:idx]):
+            w = stores(prev)
+            if name in w:
+                if not (isinstance(prev, ast.Assign) and len(prev.targets) == 1 and isinstance(prev.targets[0], ast.Name)):
+                    return None
+                e = prev.value
+                for n in ast.walk(e):
+                    if not isinstance(n, (ast.BinOp, ast.Add, ast.Sub, ast.Name, ast.Constant, ast.Load)):
+                        return None
+                    if isinstance(n, ast.Constant) and not (isinstance(n.value, int) and not isinstance(n.value, bool)):
+                        return None
+                reads = {n.id for n in ast.walk(e) if isinstance(n, ast.Name)}
+                if name in reads or reads & between:
+                    return None
+                return e
+            between |= w
+        return None
 
     def _truthy_from_len(self, atoms, want) -> bool:
         """`x` truthy is implied by a guard `len(x) > 0`/`len(x) == k`; `len(x) > 0` by `x` truthy"""
